@@ -51,6 +51,8 @@ def build(sp: Dict[str, Any]) -> nx.Graph:
     """Materialise an item spec as a fresh nx.Graph (new object every call):
     corpus graph -> optional one-edit -> optional relabelling with shuffled insertion order."""
     import random
+    if sp["base"] == "empty":
+        return nx.Graph()                 # a reaction centre without atoms (nothing changes in the reaction)
     g = _base_graph(sp["base"])
     if sp.get("edit"):
         apply_edit_inplace(g, sp["edit"])
@@ -79,6 +81,8 @@ def build(sp: Dict[str, Any]) -> nx.Graph:
 
 def content_key(sp: Dict[str, Any]) -> str:
     """Content of the graph up to relabelling inputs (base + edit); relabel does not change the class."""
+    if sp["base"] == "empty":
+        return json.dumps(["empty", None])
     return json.dumps([sp["base"] % len(items()), sp.get("edit")])
 
 
@@ -107,6 +111,9 @@ def isomorphic(sp1: Dict[str, Any], sp2: Dict[str, Any]) -> bool:
     key = (k1, k2) if k1 < k2 else (k2, k1)
     got = _ISO.get(key)
     if got is None:
+        if "empty" in (sp1["base"], sp2["base"]):
+            _ISO[key] = False            # (both empty is the k1 == k2 case above)
+            return False
         a = build({"base": sp1["base"], "edit": sp1.get("edit"), "relabel": None})
         b = build({"base": sp2["base"], "edit": sp2.get("edit"), "relabel": None})
         if a.number_of_nodes() != b.number_of_nodes() or a.number_of_edges() != b.number_of_edges():
